@@ -2,7 +2,7 @@
 
     deserialize_list_like  deserialize_array  deserialize_deque  deserialize_tuple  deserialize_set
     deserialize_multifield_wrapper  deserialize_map  deserialize_single_field
-    construct_fields_map  deserialize_structure_internal
+    construct_fields_map  deserialize_structure_internal  get_processed_input
 
 into Gallina over Base/PyOps.v, PyOps2.v, PyObj.v, PyOpsFields.v, PyOpsVersioned.v, PyOpsDerive.v and
 PyOpsDeserialize.v, rewritten on every run from the working tree of core.REPO into
@@ -61,9 +61,10 @@ from harness.genmods.py2v_trusted import Repo
 MODULE = "typedpy.serialization.serialization"
 TARGETS = ["deserialize_list_like", "deserialize_array", "deserialize_deque", "deserialize_tuple",
            "deserialize_set", "deserialize_multifield_wrapper", "deserialize_map", "deserialize_single_field",
-           "construct_fields_map", "deserialize_structure_internal"]
+           "construct_fields_map", "deserialize_structure_internal", "get_processed_input"]
 FIELD_KNOT = ["deserialize_list_like", "deserialize_array", "deserialize_deque", "deserialize_tuple",
-              "deserialize_set", "deserialize_multifield_wrapper", "deserialize_map", "deserialize_single_field"]
+              "deserialize_set", "deserialize_multifield_wrapper", "deserialize_map", "deserialize_single_field",
+              "get_processed_input"]
 OUT = os.path.join("theories", "Gen", "DeserializeSrc.v")
 
 RESERVED = {"h", "ext", "R", "l", "fuel", "outer", "k_after", "tt", "fix", "in", "let", "match", "end", "fun", "if",
@@ -205,6 +206,7 @@ class TrD:
         self.handlers = []               # innermost last: xterm -> term that hands the exception to the handler
         self.exn_vars = []               # Coq names of the exceptions being handled (for a bare `raise`)
         self.comp_hint = None
+        self.local_fns = {}              # nested def name -> (coq name, captured outer names, arity)
 
     # ------------------------------------------------------------------ small things
     def fresh(self, base="t"):
@@ -290,6 +292,9 @@ class TrD:
             return "(PStr %s)" % E.pstr(c)
         if name in BUILTIN_CLASS_VALUES and self.gen.is_builtin(name):
             return "(bref %s)" % E.pstr(name)
+        if self.gen.opaque_global(name):
+            # a module-level object created once by a call (a sentinel): opaque, equal only to itself
+            return "(PyOpsVersioned.py_global %s)" % E.pstr(name)
         raise Unsupported("free name %s" % name)
 
     # ------------------------------------------------------------------ exception messages: text only
@@ -572,6 +577,18 @@ class TrD:
                 v, t = self.fresh(), self.fresh()
                 return b + [(v, "py_dict_%s %s" % (e.args[0].func.attr, o)),
                             (t, "py_call ext (bref %s) [PList %s] []" % (E.pstr(f.id), v))], t
+            if f.id in self.local_fns:
+                cname, captured, arity = self.local_fns[f.id]
+                binds, pos, kws = self.arguments(e)
+                if kws or any(p[0] != "one" for p in pos) or len(pos) != arity:
+                    raise Unsupported("call of the nested function %s" % f.id)
+                caps = []
+                for n in captured:
+                    b, a = self.read(n)
+                    binds += b
+                    caps.append(a)
+                t = self.fresh()
+                return binds + [(t, " ".join([cname, "h", "ext", "R"] + caps + [p[1] for p in pos]))], t
             if f.id in self.gen.fn_status:
                 return self.call_target(f.id, e)
             binds, pos, kws = self.arguments(e)
@@ -1335,6 +1352,14 @@ class Gen:
         _, stars = self.repo.imports(MODULE)
         return not stars
 
+    def opaque_global(self, name):
+        """NAME = f(...) once at module level, never re-bound, no function or class of that name"""
+        v = self.assigns.get(name)
+        hits = sum(1 for n in self.tree.body if isinstance(n, (ast.Assign, ast.AnnAssign, ast.AugAssign))
+                   for m in ast.walk(n) if isinstance(m, ast.Name) and isinstance(m.ctx, ast.Store) and m.id == name)
+        return (v is not None and isinstance(v, ast.Call) and hits == 1 and name not in self.globals_rebound
+                and name not in self.fns and self.repo.classdef(MODULE, name) is None)
+
     def is_module(self, name):
         names, _ = self.repo.imports(MODULE)
         return name in names and names[name][0] == "mod" and name not in self.assigns and name not in self.fns
@@ -1541,15 +1566,72 @@ class Gen:
         sig = self.signature(fname)
         if sig is None:
             raise Unsupported("parameter list of %s" % fname)
+        # nested `def`s at the top of the body: lifted (the outer PARAMETERS they mention become parameters)
+        nested, stmts = [], list(node.body)
+        while stmts and (isinstance(stmts[0], ast.FunctionDef)
+                         or (isinstance(stmts[0], ast.Expr) and isinstance(stmts[0].value, ast.Constant) and not nested)):
+            if isinstance(stmts[0], ast.FunctionDef):
+                nested.append(stmts[0])
+            stmts.pop(0)
         for n in ast.walk(node):
             if isinstance(n, (ast.Global, ast.Nonlocal, ast.Yield, ast.YieldFrom, ast.Await, ast.Lambda,
-                              ast.FunctionDef, ast.AsyncFunctionDef, ast.ClassDef, ast.While, ast.With,
+                              ast.AsyncFunctionDef, ast.ClassDef, ast.While, ast.With,
                               ast.Delete, ast.NamedExpr, ast.Import, ast.ImportFrom)) and n is not node:
                 raise Unsupported("%s inside %s" % (type(n).__name__, fname))
+            if isinstance(n, ast.FunctionDef) and n is not node and n not in nested:
+                raise Unsupported("nested def %s not at the top of %s" % (n.name, fname))
         params = [(p, self.coq_param(p)) for p, _, _ in sig]
         tr = TrD(self, fname, params)
-        body = tr.block(node.body, Kont(lambda: "(Ok PNone)", True), None, set())
         cname = coq_fn(fname)
+        outer_assigned = set(assigned_names(stmts)) | set(loop_targets(stmts))
+        for nd in nested:
+            a = nd.args
+            if nd.decorator_list or a.vararg or a.kwarg or a.kwonlyargs or a.defaults or getattr(a, "posonlyargs", []) \
+                    or nd.name in tr.local_fns or nd.name in dict(params) or nd.name in outer_assigned:
+                raise Unsupported("nested def %s" % nd.name)
+            for m in ast.walk(nd):
+                if isinstance(m, ast.FunctionDef) and m is not nd:
+                    raise Unsupported("def inside the nested def %s" % nd.name)
+                if isinstance(m, ast.Name) and m.id == nd.name:
+                    raise Unsupported("the nested def %s mentions itself" % nd.name)
+            for m in ast.walk(ast.Module(body=stmts, type_ignores=[])):
+                if isinstance(m, ast.Name) and m.id == nd.name and not isinstance(m.ctx, ast.Load):
+                    raise Unsupported("the nested def %s is re-bound" % nd.name)
+            own = [x.arg for x in a.args]
+            local_names = set(own) | set(assigned_names(nd.body)) | set(loop_targets(nd.body))
+            used = tr.used_names(nd.body)
+            captured = [p for p, _ in params if p in used and p not in local_names]
+            for n in used:
+                if n not in local_names and n not in captured and (n in outer_assigned or n in tr.local_fns):
+                    raise Unsupported("the nested def %s reads the outer local %s" % (nd.name, n))
+            if any(p in outer_assigned for p in captured):
+                raise Unsupported("the nested def %s captures a parameter that %s re-binds" % (nd.name, fname))
+            sub = TrD(self, fname, [(p, self.coq_param(p)) for p in captured] +
+                      [(x, self.coq_param(x) + "_") if x in captured else (x, self.coq_param(x)) for x in own])
+            sub.n = tr.n
+            sub.comp_names = tr.comp_names
+            sub.nloops = tr.nloops
+            nbody = sub.block(nd.body, Kont(lambda: "(Ok PNone)", True), None, set())
+            tr.n, tr.nloops = sub.n, sub.nloops
+            tr.hoisted += sub.hoisted
+            lname = "%s_fn_%s" % (cname, nd.name.lstrip("_"))
+            tr.hoisted.append("Definition %s (h : heap) (ext : extern) (R : recs) %s : res pyval :=\n  %s." % (
+                lname, " ".join("(%s : pyval)" % sub.env[x].atom for x in captured + own), nbody))
+            tr.local_fns[nd.name] = (lname, captured, len(own))
+        for m in ast.walk(ast.Module(body=stmts, type_ignores=[])):
+            if isinstance(m, ast.Name) and m.id in tr.local_fns:
+                pass
+        for st in stmts:                                  # a nested function may only be CALLED
+            for m in ast.walk(st):
+                if isinstance(m, ast.Call):
+                    continue
+            names_called = {m.func.id for m in ast.walk(st) if isinstance(m, ast.Call) and isinstance(m.func, ast.Name)}
+            uses = [m.id for m in ast.walk(st) if isinstance(m, ast.Name) and m.id in tr.local_fns]
+            calls = [m.func.id for m in ast.walk(st) if isinstance(m, ast.Call) and isinstance(m.func, ast.Name)
+                     and m.func.id in tr.local_fns]
+            if len(uses) != len(calls):
+                raise Unsupported("a nested function is used as a value")
+        body = tr.block(stmts, Kont(lambda: "(Ok PNone)", True), None, set())
         text = "".join(hp + "\n\n" for hp in tr.hoisted)
         text += "Definition %s (h : heap) (ext : extern) (R : recs) %s : res pyval :=\n  %s." % (
             cname, " ".join("(%s : pyval)" % c for _, c in params), body)
@@ -1650,6 +1732,19 @@ def render():
                      "  match fuel with\n  | O => {| %s |}\n  | S fuel' =>\n      let R := src_field_fix h ext outer fuel' in\n"
                      "      {| %s |}\n  end." % (";\n         ".join(stop), ";\n         ".join(step)))
         status["src_field_fix"] = "ok"
+    lines.append("")
+    bad = [f for f in TARGETS if g.fn_status.get(f) != "ok"]
+    if bad:
+        lines.append(untranslatable("src_full_fix", "%s is not translated" % bad[0]))
+        status["src_full_fix"] = "unsupported: %s is not translated" % bad[0]
+    else:
+        stop = ["%s := fun %s=> Raise OutOfFuel" % (rec_field(f), "_ " * len(g.signature(f))) for f in have_sig]
+        step = ["%s := %s h ext R" % (rec_field(f), coq_fn(f)) for f in have_sig]
+        lines.append("(* all the translated functions call each other: the knot, with one unit of fuel per call *)")
+        lines.append("Fixpoint src_full_fix (h : heap) (ext : extern) (fuel : nat) {struct fuel} : recs :=\n"
+                     "  match fuel with\n  | O => {| %s |}\n  | S fuel' =>\n      let R := src_full_fix h ext fuel' in\n"
+                     "      {| %s |}\n  end." % (";\n         ".join(stop), ";\n         ".join(step)))
+        status["src_full_fix"] = "ok"
     lines.append("")
     return "\n".join(lines), status
 
